@@ -94,7 +94,7 @@ def e10b(ctx: Ctx):
                 )
 
 
-@rule("E10c", "DATA-REWRITE: when DATA items are turned into strings they carry the number's decimal text (what VAL can read back)", ["C03", "C20", "C15"], floor=1)
+@rule("E10c", "DATA-REWRITE: when DATA items are turned into strings they carry the number's decimal text (what VAL can read back)", ["C03", "C20", "C15", "C12"], floor=1, default_props=["C03", "C20", "C15"])
 def e10c(ctx: Ctx):
     py = pyfacts(ctx)
     fn = py.cls("BasicReadStatementPatcherVisitor").methods.get("visit_data_statement")
@@ -115,6 +115,8 @@ def e10c(ctx: Ctx):
             file=VISITORS_REL,
             line=line,
             witness="" if ok else "10 DATA &HFF,,3",
+            # str() of the item object itself is its default repr: it contains a memory address
+            props=["C03", "C20", "C15", "C12"] if (isinstance(src, ast.Call) and call_name(src) in ("str", "repr") and src.args and isinstance(src.args[0], ast.Name)) else None,
         )
 
 
@@ -295,7 +297,7 @@ def _norm(s: str) -> str:
     return re.sub(r"\s+", "", s.lower())
 
 
-@rule("L8", "HELPER-GUARDS: ecb_string rejects only negative counts / an empty pattern, starts from the empty string and appends `count` times the first character", ["C20"], floor=3, soft=True)
+@rule("L8", "HELPER-GUARDS: ecb_string rejects only negative counts / an empty pattern, starts from the empty string and appends `count` times the first character", ["C20", "C03"], floor=3, soft=True)
 def l8(ctx: Ctx):
     L = b09lib(ctx)
     if "ecb_string" not in L.procs:
@@ -338,7 +340,7 @@ def l8(ctx: Ctx):
     # ecb_instr / read filter shape facts that are decidable from text: covered by L7
 
 
-@rule("L8b", "INSTR-SHAPE: ecb_instr starts from 0, scans every position from the start index to the last possible one, compares LEN(pattern) characters and keeps the first match", ["C20"], floor=4, soft=True)
+@rule("L8b", "INSTR-SHAPE: ecb_instr starts from 0, scans every position from the start index to the last possible one, compares LEN(pattern) characters and keeps the first match", ["C20", "C03"], floor=4, soft=True)
 def l8b(ctx: Ctx):
     L = b09lib(ctx)
     if "ecb_instr" not in L.procs:
@@ -377,3 +379,73 @@ def l8b(ctx: Ctx):
     stops = any(re.fullmatch(r"end|exitif.*|goto\d+", t) for t in texts[ci : (texts.index("endif", ci) if "endif" in texts[ci:] else len(texts))])
     okf = bool(desc) or (bool(asc) and stops) or not okb
     ctx.ob("ecb_instr:first-match", okf, "" if okf else "the scan runs upwards and goes on after a match: the last occurrence is returned, not the first", file=LIB_REL, line=stmts[fi].line, witness="" if okf else 'INSTR(1,"ABAB","AB")')
+
+
+@rule("L8c", "INT-SHAPE: ecb_int truncates non-negative arguments and, for negative ones, truncates after subtracting a constant just below 1 (floor, as Color BASIC's INT)", ["C01", "C03"], floor=3, soft=True)
+def l8c(ctx: Ctx):
+    L = b09lib(ctx)
+    if "ecb_int" not in L.procs:
+        raise IdiomNotFound("ecb_int not found")
+    p = L.procs["ecb_int"]
+    if len(p.params) != 2:
+        raise IdiomNotFound("ecb_int(v, retval) signature not recognised")
+    v, out = (re.escape(x[0]) for x in p.params)
+    stmts = list(L.all_stmts(p))
+    texts = [_norm(s.text) for s in stmts]
+    gi = next((i for i, t in enumerate(texts) if re.fullmatch(rf"if{v}(>=|>)0(\.0*)?then", t)), None)
+    if gi is None or "else" not in texts[gi:]:
+        raise IdiomNotFound("`if v >= 0 then ... else ...` not recognised")
+    ei = texts.index("else", gi)
+    pos = [t for t in texts[gi + 1 : ei] if t.startswith(p.params[1][0])]
+    neg = [t for t in texts[ei + 1 :] if t.startswith(p.params[1][0])]
+    okp = len(pos) == 1 and re.fullmatch(rf"{out}:?=(int|fix)\({v}\)", pos[0]) is not None
+    ctx.ob("ecb_int:non-negative", okp, "" if okp else f"for v >= 0 the result is `{pos}`, not INT(v)", file=LIB_REL, line=stmts[gi].line)
+    m = re.fullmatch(rf"{out}:?=(?:int|fix)\({v}-(\d*\.?\d+)\)", neg[0]) if len(neg) == 1 else None
+    if m is None:
+        raise IdiomNotFound(f"negative branch `{neg}` not of the form retval = int(v - c)")
+    c = float(m.group(1))
+    okn = 0.9 <= c < 1.0
+    ctx.ob(
+        "ecb_int:negative",
+        okn,
+        "" if okn else f"for v < 0 the result is INT(v - {m.group(1)}): BASIC09's INT truncates toward zero, so the constant has to stay below 1 (and close to it) - with {m.group(1)} a negative whole number comes out one too small (INT(-3) = -4), respectively negative fractions are not rounded down",
+        file=LIB_REL,
+        line=stmts[ei].line,
+        witness="" if okn else "10 A=INT(-3)",
+    )
+    okg = re.fullmatch(rf"if{v}>=0(\.0*)?then", texts[gi]) is not None
+    ctx.ob("ecb_int:guard", okg, "" if okg else "zero is sent down the negative branch", file=LIB_REL, line=stmts[gi].line)
+
+
+@rule("E10d", "READ-FILTER-TOTAL: once DATA items are turned into strings, every numeric READ target - variable or array element alike - goes through the run-time filter", ["C20", "C03"], floor=2, soft=True)
+def e10d(ctx: Ctx):
+    py = pyfacts(ctx)
+    ci = py.cls("BasicReadStatementPatcherVisitor")
+    rd = ci.methods.get("visit_read_statement")
+    dt = ci.methods.get("visit_data_statement")
+    if rd is None or dt is None:
+        raise IdiomNotFound("READ patcher methods not found")
+    comps = [c for c in ast.walk(rd) if isinstance(c, (ast.DictComp, ast.ListComp, ast.SetComp, ast.GeneratorExp)) and any(isinstance(x, ast.Call) and call_name(x) == "get_new_temp" for x in ast.walk(c))]
+    if len(comps) != 1 or len(comps[0].generators) != 1:
+        raise IdiomNotFound("the comprehension that gives numeric READ targets a string temporary was not recognised")
+    g = comps[0].generators[0]
+    tv = g.target.id if isinstance(g.target, ast.Name) else None
+    if tv is None:
+        raise IdiomNotFound("comprehension target not a name")
+    conds = [unparse(t).replace(" ", "") for t in g.ifs]
+    ok = conds in ([f"not{tv}.is_str_expr"], [f"{tv}.is_str_expr==False"], [f"{tv}.is_str_expr!=True"], [f"{tv}.is_str_expr is False".replace(" ", "")])
+    ctx.ob(
+        "read-targets:selection",
+        ok,
+        "" if ok else f"READ targets are filtered under `{' and '.join(unparse(t) for t in g.ifs)}`; visit_data_statement turns every numeric DATA item into a string, so *every* target that is not a string (scalar or array element) has to read into a string temporary and go through ecb_read_filter - the others read a string item straight into a REAL and an empty item is no longer 0",
+        file=VISITORS_REL,
+        line=comps[0].lineno,
+        witness="" if ok else "10 DIM A(3):READ A(1),B:DATA ,5",
+    )
+    oki = unparse(g.iter).endswith(".rhs_list")
+    ctx.ob("read-targets:all", oki, "" if oki else f"the selection runs over `{unparse(g.iter)}`, not over all targets of the READ", file=VISITORS_REL, line=comps[0].lineno)
+    # the DATA side is unconditional on the item's class: both kinds of non-string item are rewritten
+    tests = [n for n in ast.walk(dt) if isinstance(n, ast.If)]
+    outer = next((t for t in tests if "isinstance" in unparse(t.test) and "literal" in unparse(t.test) and "str" in unparse(t.test)), None)
+    okd = outer is not None and bool(outer.body) and all(any(isinstance(x, (ast.Assign,)) for x in ast.walk(s_)) for s_ in outer.body)
+    ctx.ob("data-items:all-rewritten", okd, "" if okd else "visit_data_statement no longer rewrites every non-string DATA item", file=VISITORS_REL, line=dt.lineno)
